@@ -1,9 +1,9 @@
 #!/bin/bash
 # confirm_seed.sh <Cxx> [check-args...] : confirm a seeded breaking change produced by an independent agent in /tmp/seed_Cxx(+_out):
 #   demo passes on the unchanged /repo, fails on the changed tree, the unedited test suite passes on the changed tree,
-#   then run ./check Cxx against the changed tree.  Keeps it as /verif/seeded/Cxx/ (patch.diff, demo.cpp, README.md, meta.json).
+#   then run ./check Cxx against the changed tree.  SEEDPFX=/tmp/seed2_ SEEDDST=Cxx_2 select a second-round seed.  Keeps it as /verif/seeded/Cxx/ (patch.diff, demo.cpp, README.md, meta.json).
 id=$1; shift
-wt=/tmp/seed_$id; out=/tmp/seed_${id}_out; dst=/verif/seeded/$id
+pfx=${SEEDPFX:-/tmp/seed_}; wt=${pfx}$id; out=${pfx}${id}_out; dst=/verif/seeded/${SEEDDST:-$id}
 [ -f $out/patch.diff ] || { echo "no patch"; exit 2; }
 mkdir -p $dst
 flags=$(grep -m1 'g++' $out/demo.cpp | grep -oE '(^| )-(D|m)[A-Za-z0-9_=.+-]+' | tr '\n' ' ')
